@@ -66,6 +66,9 @@ CORNERS = [
     ('try-import', "try:\n    import nonexistent_module_xyz\nexcept ImportError:\n    print('missing')\nimport json\nprint(json.dumps([1]))\n"),
     ('async', "import asyncio\nasync def work(delay_value):\n    await asyncio.sleep(0)\n    return delay_value * 2\nasync def main():\n    results = [await work(n) for n in range(3)]\n    async def agen():\n        for item in results:\n            yield item\n    return [item async for item in agen()]\nprint(asyncio.run(main()))\n"),
     ('exit-status', "import sys\nprint('before')\nsys.exit(3)\n"),
+    ('raise-keyword-args', "def load(name_value):\n    raise ImportError(name=name_value, path='/nowhere/' + name_value)\ndef probe():\n    raise AttributeError(name='attr', obj=None)\nfor f in (lambda: load('spam'), probe):\n    try:\n        f()\n    except (ImportError, AttributeError) as error:\n        print(type(error).__name__, error.name, getattr(error, 'path', None), error.args)\n"),
+    ('short-parameter-names', "def solve(A, values, *, B=1):\n    total = 0\n    for value in values:\n        total += value * A + B\n    return total + total + total\nprint(solve(2, [1, 2, 3]), solve(A=3, values=[1], B=0))\nclass K:\n    def method(self, A, *rest, C=2):\n        total = sum(rest) + A\n        return total * total * C + total\nprint(K().method(1, 2, 3, C=4))\n"),
+    ('already-minified', "def A(B,C=2,*D,E=3,**F):\n    G=B+C\n    H=[G*I for I in D]\n    return G,H,E,sorted(F),G,G,H,H\nprint(A(1),A(1,2,3,4,E=5,Z=6))\n"),
     ('nested-class-private', "class Outer:\n    __secret = 1\n    def get(self):\n        return self.__secret\n    class Inner:\n        def peek(self, outer):\n            return outer._Outer__secret\nprint(Outer().get(), Outer.Inner().peek(Outer()))\n"),
 ]
 
@@ -298,7 +301,7 @@ def run(ctx):
         if k.get('replay_source'):
             differential(ctx, [(k['id'], k['replay_source'])], osets_all, 'known')
     differential(ctx, scopegen.sibling_comprehension_programs() + scopegen.declaration_programs(), [s for s in osets_all if s[0] in ('defaults', 'only:rename_locals')], 'directed-scopes')
-    wide = [('wide%d' % i, rungen.program(ctx.rng)) for i in range(ctx.scale(60, 2500))]
+    wide = [('wide%d' % i, rungen.program(ctx.rng)) for i in range(ctx.scale(160, 2500))]
     osets_small = [osets_all[0], osets_all[1]] + [s for s in osets_all if s[0].startswith('random')][:ctx.scale(3, 8)]
     osets_small += [s for s in osets_all if s[0] in ('only:rename_locals', 'only:hoist_literals', 'without:rename_locals', 'only:constant_folding')]
     differential(ctx, wide, osets_small, 'generated')
